@@ -127,10 +127,10 @@ func TestC11_S1Refresh(t *testing.T) {
 		Prop: "C11", Test: "S1Refresh",
 		Rule: "refresh-enabled configurations (with and without expiry, inline and deferred executors); reads and writes around the refresh deadline (advance to deadline -1/0/+1), reload outcomes value/error/ErrNotFound, " +
 			"Refresh/BulkRefresh on live, absent and expired keys, SetRefreshableAfter; oracle: fresh reads invoke no loader, a due read returns the old value and submits exactly one reload with the old value, " +
-			"success replaces and recomputes the refresh time, failure leaves value and expiry, not-found removes, each Refresh call delivers exactly one result, nil channel without refresh; " +
+			"success replaces and recomputes the refresh time, failure leaves value and expiry, not-found removes, each Refresh call delivers exactly one result, nil channel without refresh; a snapshot loaded into a fresh cache keeps future refresh times and leaves entries that were due for refresh due; " +
 			"non-trivial = >= 1 due read and >= 1 reload that is not a plain success",
 		Profile: &vh.Profile{Name: "c11", NeedRefresh: true, TinyRefresh: true, LongExpiry: true, ExtremeDur: true, Executors: both(), MinLen: 1, MaxLen: 80, MaxKeys: 4,
-			Ops: with(vh.BaseOps(), "get", 24, "bulkget", 8, "refresh", 8, "bulkrefresh", 5, "advanceto", 14, "advance", 8, "setrefreshableafter", 5, "runtasks", 10)},
+			Ops: with(vh.BaseOps(), "get", 24, "bulkget", 8, "refresh", 8, "bulkrefresh", 5, "advanceto", 14, "advance", 8, "setrefreshableafter", 5, "runtasks", 10, "saveload", 2)},
 		Facets:       vh.FRefresh | vh.FContents | vh.FDeadline | vh.FPanic,
 		FinalQuiesce: true,
 		NonTrivial:   func(r *vh.Runner) bool { return r.St.DueReads > 0 && r.St.ReloadNotSuccess > 0 },
@@ -265,7 +265,7 @@ func TestC19_S1SaveLoad(t *testing.T) {
 		Rule: "a source cache built by a generated script over any layout is saved with SaveCacheTo; the clock is moved by a generated offset (0, sub-TTL, exactly a saved deadline, beyond deadlines) and the stream is loaded into a fresh cache of the same configuration or a smaller/larger maximum; " +
 			"loaded keys must be a subset of the source entries live at load time with equal value and ExpiresAtNano, RefreshableAtNano equal when in the future else due; everything loaded when the live weight fits, otherwise the target stays within its bound; " +
 			"non-trivial = >=1 entry expired between save and load and >=1 survivor with a finite deadline, or a bounded target smaller than the saved weight",
-		Profile: &vh.Profile{Name: "c19", Executors: []int{vh.ExecInline}, MinLen: 2, MaxLen: 40, MaxKeys: 8,
+		Profile: &vh.Profile{Name: "c19", ExtremeDur: true, Executors: []int{vh.ExecInline}, MinLen: 2, MaxLen: 40, MaxKeys: 8,
 			Ops: with(vh.BaseOps(), "saveload", 8, "set", 24, "advance", 10, "advanceto", 3, "get", 3, "bulkget", 1, "refresh", 1, "bulkrefresh", 1, "invalidateall", 0)},
 		Facets: vh.FRet | vh.FVis | vh.FPanic,
 		NonTrivial: func(r *vh.Runner) bool {
